@@ -180,6 +180,86 @@ def r_cli(query, doc, pretty=False, via_file=False, encoding="utf-8"):
     return _judge(query, doc, pretty, via_file, encoding)
 
 
+def c_argparse():
+    """Supplementary *finite enumeration* (not symbolic): the option plumbing of setup_parser()/main() with real files -
+    query inline (-q) or in a file (-r), document from a file (-f) in every encoding json.load accepts for bytes
+    (UTF-8, UTF-8 with BOM refused by json, UTF-16, UTF-32, non-ASCII), output to a file (-o) or captured stdout,
+    with and without --pretty; compared with find().values()."""
+    import contextlib
+    import os
+    import tempfile
+
+    from vtools import inst
+
+    base = os.path.join(inst.VERIF_DIR, "replays")
+    os.makedirs(base, exist_ok=True)
+    bad = []
+    n = 0
+    data = {"a": [1, "é", {"b": "中\U0001F600"}], "ü": None}
+    text = json.dumps(data, ensure_ascii=False)
+    encodings = {"utf-8": text.encode("utf-8"), "utf-16": text.encode("utf-16"), "utf-16-le": text.encode("utf-16-le"), "utf-32": text.encode("utf-32"), "ascii-escaped": json.dumps(data).encode("ascii")}
+    queries = ["$.a[*]", "$..b", "$['ü']", "$.a[?@.b]", "$"]
+    with tempfile.TemporaryDirectory(dir=base) as tmp:
+        for enc, raw in encodings.items():
+            fpath = os.path.join(tmp, "doc_%s.json" % enc)
+            with open(fpath, "wb") as fd:
+                fd.write(raw)
+            for qi, q in enumerate(queries):
+                for pretty in (False, True):
+                    for qfile in (False, True):
+                        for outfile in (False, True):
+                            argv = ["--pretty"] if pretty else []
+                            if qfile:
+                                qp = os.path.join(tmp, "q%d.txt" % qi)
+                                with open(qp, "w", encoding="utf-8") as fd:
+                                    fd.write(q + "\n")
+                                argv += ["-r", qp]
+                            else:
+                                argv += ["-q", q]
+                            argv += ["-f", fpath]
+                            opath = os.path.join(tmp, "out.json")
+                            if outfile:
+                                argv += ["-o", opath]
+                            out, err = io.StringIO(), io.StringIO()
+                            code = 0
+                            try:
+                                with contextlib.redirect_stdout(out), contextlib.redirect_stderr(err):
+                                    args = cli.setup_parser().parse_args(argv)
+                                    try:
+                                        args.func(args)
+                                    finally:
+                                        for f in (args.file, args.output, getattr(args, "query_file", None)):
+                                            if f is not None and f not in (sys.stdout, sys.stdin) and hasattr(f, "close") and not isinstance(f, io.StringIO):
+                                                try:
+                                                    f.close()
+                                                except Exception:  # noqa: BLE001
+                                                    pass
+                            except SystemExit as e:
+                                code = e.code or 0
+                            except Exception as e:  # noqa: BLE001
+                                bad.append((argv, "escaped %s: %s" % (type(e).__name__, str(e)[:80])))
+                                continue
+                            n += 1
+                            want = jp.find(q, data).values()
+                            got_text = open(opath, encoding="utf-8").read() if outfile else out.getvalue()
+                            if code != 0:
+                                bad.append((argv, "exit %r: %s" % (code, err.getvalue()[:100])))
+                                continue
+                            try:
+                                if json.loads(got_text) != want:
+                                    bad.append((argv, "output %r differs from %r" % (got_text[:60], want)))
+                            except ValueError:
+                                bad.append((argv, "output is not JSON: %r" % (got_text[:60],)))
+    if bad:
+        return {"status": "refuted", "failure": "CLI plumbing: %r" % (bad[:3],), "replay_module": "vtools.props.c20", "replay_func": "r_argparse", "replay_args": {}}
+    return {"status": "confirmed", "paths": n, "confirmed_paths": n, "queries": [{"claim": "%d real-file CLI runs (5 encodings x 5 queries x pretty x -q/-r x stdout/-o) equal find().values()" % n, "result": "finite enumeration"}]}
+
+
+def r_argparse():
+    r = c_argparse()
+    return True if r["status"] == "confirmed" else r["failure"]
+
+
 def h_reach() -> bool:
     """Reachability twin: must be refuted (some run fails with a diagnostic)."""
     q = "$.a[" + holes.fragment() + "]"
@@ -192,7 +272,7 @@ SELFTESTS = []
 
 def obligations(tier: str):
     obls = []
-    t = 300 if tier == "quick" else 3000
+    t = 300 if tier == "quick" else 1200
     from vtools.corpus import SEEDS as ALL
 
     seeds = SEEDS if tier == "quick" else ALL
@@ -204,5 +284,6 @@ def obligations(tier: str):
         for d in DOCS:
             for enc in ("utf-8", "ascii"):
                 obls.append({"id": "conc%02d.%s.%s" % (qi, d, enc), "func": "h_cli", "params": {"prefix": q, "suffix": "", "k": 0, "doc": d, "via_file": (qi + len(d)) % 2 == 0, "encoding": enc}, "timeout": 120})
+    obls.append({"id": "argparse_files", "kind": "concrete", "func": "c_argparse", "timeout": 300})
     obls.append({"id": "reach", "module": "vtools.props.c20", "func": "h_reach", "params": {"k": 1}, "timeout": 60, "expect": "refuted"})
     return obls
